@@ -131,7 +131,7 @@ func registerGen(g func()) { generators = append(generators, g) }
 
 func newLean(name string) *leanFile {
 	l := &leanFile{name: name}
-	l.pf("-- GENERATED from %s by /verif/extract (gvx) on every run: do not edit\n", repoRoot)
+	l.pf("-- GENERATED from the repository source by /verif/extract (gvx) on every run: do not edit\n")
 	outFiles = append(outFiles, l)
 	return l
 }
